@@ -932,3 +932,348 @@ Proof.
       destruct Hinp as [E|Hinp]; [injection E as <- _; left; reflexivity | right; eapply IH, Hinp]. }
     rewrite map_app, map_fst_remove_key, Hfs. reflexivity.
 Qed.
+
+(* ---------------------------------------------------------------- with_field below one list level *)
+Lemma zip_map_VRec (rows : list (list (name * value))) (ws : list value) :
+  zip (map VRec rows) ws = map (fun p : list (name * value) * value => (VRec (fst p), snd p)) (zip rows ws).
+Proof. revert ws. induction rows as [|r rows IH]; intros [|w ws]; try reflexivity. cbn. rewrite IH. reflexivity. Qed.
+
+Lemma In_zip_fst {A B} (l : list A) (m : list B) a b : In (a, b) (zip l m) -> In a l.
+Proof.
+  revert m. induction l as [|x l IH]; intros [|y m] H; cbn in H; try contradiction.
+  destruct H as [E|H]; [injection E as <- _; left; reflexivity | right; eapply IH, H].
+Qed.
+
+(* one (variable-length) list of records and the corresponding list of new values, of equal lengths: the list
+   keeps its length and every record gets its value *)
+Lemma wf_v_list k ks ts tw (fss : list (list (name * value))) (ws : list value) :
+  records_of ks fss -> zlen ts = zlen ks -> length fss = length ws ->
+  wf_v (Some k) false (TList None None (TRec (Some ks) ts)) (VList (map VRec fss)) (TList None None tw) (VList ws) =
+  Ok (VList (map (fun p : list (name * value) * value => VRec (remove_key k (fst p) ++ [(k, snd p)])) (zip fss ws))).
+Proof.
+  intros Hrec Hts Hlen.
+  assert (Hz : zlen ws = zlen (map VRec fss)) by (unfold zlen; rewrite map_length, Hlen; reflexivity).
+  cbn [wf_v is_opt andb strip_opt1]. unfold classify. cbn [fst snd mapM elems bind first_var stretch].
+  rewrite Z.eqb_refl. cbn [bind]. rewrite Hz, Z.eqb_refl. cbn [bind].
+  rewrite zip_map_VRec, mapM_map.
+  rewrite (mapM_Ok_map _ (fun p : list (name * value) * value => VRec (remove_key k (fst p) ++ [(k, snd p)]))); [reflexivity|].
+  intros [fs w] Hin. cbn [fst snd wf_v].
+  assert (Hfs : map fst fs = ks).
+  { unfold records_of in Hrec. rewrite Forall_forall in Hrec. apply Hrec. eapply In_zip_fst, Hin. }
+  rewrite <- Hfs. replace (zlen ts) with (zlen fs) by (rewrite Hts, <- Hfs, zlen_map; reflexivity).
+  apply set_field_named.
+Qed.
+
+(* C10: with_field on an array of LISTS of records keeps the enclosing list structure: same number of lists, every
+   list keeps its length, and the k-th field of record (i, j) is what[i][j] *)
+Theorem with_field_preserves_lists_lemma k ks ts tw
+        (rows : list (list (list (name * value)))) (wss : list (list value)) :
+  existsb has_union ts = false -> has_union tw = false ->
+  Forall (records_of ks) rows -> zlen ts = zlen ks ->
+  Forall2 (fun fss ws => length fss = length ws) rows wss ->
+  spec_with_field [k] (TList None None (TRec (Some ks) ts)) (map (fun fss => VList (map VRec fss)) rows)
+                  (WArr (TList None None tw) (map VList wss)) =
+  Ok (VList (map (fun p : list (list (name * value)) * list value =>
+                    VList (map (fun q : list (name * value) * value => VRec (remove_key k (fst q) ++ [(k, snd q)]))
+                               (zip (fst p) (snd p))))
+                 (zip rows wss))).
+Proof.
+  intros Hu Hw Hrec Hts Hlens.
+  assert (Hlen : length rows = length wss) by (clear -Hlens; induction Hlens; cbn; congruence).
+  unfold spec_with_field. cbn [with_field_path]. unfold with_field1.
+  cbn [has_union has_record_node negb]. rewrite Hu, Hw. cbn [wf_tyck strip_opt1 reg_sizes_ok flat_map app length Nat.eqb negb bind].
+  rewrite (top_rows_equal (length rows)).
+  2: discriminate.
+  2:{ repeat constructor; rewrite !map_length; [reflexivity | symmetry; exact Hlen]. }
+  cbn [bind].
+  replace (length rows) with (length (map (fun fss => VList (map VRec fss)) rows)) by apply map_length.
+  rewrite transpose2 by (rewrite !map_length; exact Hlen).
+  rewrite mapM_map.
+  assert (Hz : zip (map (fun fss => VList (map VRec fss)) rows) (map VList wss) =
+               map (fun p : list (list (name * value)) * list value => (VList (map VRec (fst p)), VList (snd p))) (zip rows wss)).
+  { clear. revert wss. induction rows as [|r rows IH]; intros [|w wss]; try reflexivity. cbn. rewrite IH. reflexivity. }
+  rewrite Hz, mapM_map.
+  rewrite (mapM_Ok_map _ (fun p : list (list (name * value)) * list value =>
+                             VList (map (fun q : list (name * value) * value => VRec (remove_key k (fst q) ++ [(k, snd q)]))
+                                        (zip (fst p) (snd p))))).
+  - reflexivity.
+  - intros [fss ws] Hin. cbn [fst snd]. apply wf_v_list; [| exact Hts |].
+    + rewrite Forall_forall in Hrec. apply Hrec. eapply In_zip_fst, Hin.
+    + clear -Hlens Hin. induction Hlens as [|r w rows wss Hrw Hrest IH]; cbn in Hin; [contradiction|].
+      destruct Hin as [E|Hin]; [injection E as <- <-; exact Hrw | apply IH, Hin].
+Qed.
+
+(* ---------------------------------------------------------------- unzip(zip) one list level down *)
+Definition leaf_list_ty (t : ty) : Prop := exists dt, t = TList None None (TNum dt).
+
+Lemma leaf_list_tys_props ts :
+  Forall leaf_list_ty ts ->
+  existsb is_union ts = false /\ existsb is_opt ts = false /\ existsb outer_is_string ts = false /\
+  forallb (fun t => (pl_depth t =? 0) || ((pl_depth t =? 1) && list_of_strings t)) ts = (match ts with [] => true | _ => false end) /\
+  filter is_listty ts = ts /\
+  existsb is_union (map elem_ty ts) = false /\
+  forallb (fun t => (pl_depth t =? 0) || ((pl_depth t =? 1) && list_of_strings t)) (map elem_ty ts) = true /\
+  Forall (fun t => exists s, t = TList None None s) ts.
+Proof.
+  induction 1 as [|t ts [dt ->] _ IH]; [repeat split; constructor|].
+  destruct IH as (I1 & I2 & I3 & I4 & I5 & I6 & I7 & I8).
+  cbn. rewrite I1, I2, I3, I5, I6, I7. repeat split; try reflexivity.
+  constructor; [eexists; reflexivity | exact I8].
+Qed.
+
+Lemma reg_sizes_ok_var ts : Forall (fun t => exists s, t = TList None None s) ts -> reg_sizes_ok ts = Ok tt.
+Proof.
+  intros H. unfold reg_sizes_ok.
+  assert (E : flat_map (fun t => match t with TList (Some s) _ _ => [s] | _ => [] end) ts = []).
+  { induction H as [|t ts [s ->] _ IH]; [reflexivity|]. cbn. exact IH. }
+  rewrite E. destruct ts; reflexivity.
+Qed.
+
+(* a row of equally long lists, one per field *)
+Definition aligned_row (row : list value) : Prop :=
+  exists m ls, row = map VList ls /\ all_len m ls.
+
+Lemma classify_var ts ls :
+  Forall (fun t => exists s, t = TList None None s) ts -> length ts = length ls ->
+  mapM classify (zip ts (map VList ls)) = Ok (map BVar ls).
+Proof.
+  intros H. revert ls. induction H as [|t ts [s ->] _ IH]; intros [|l ls] Hlen; try discriminate; [reflexivity|].
+  cbn [map zip mapM]. unfold classify at 1. cbn [fst snd elems bind]. rewrite IH by (cbn in Hlen; lia). reflexivity.
+Qed.
+
+Lemma stretch_var m ls allreg :
+  all_len m ls -> mapM (stretch allreg (Z.of_nat m)) (map BVar ls) = Ok ls.
+Proof.
+  intros H. induction H as [|l ls Hl _ IH]; [reflexivity|].
+  cbn [map mapM stretch]. unfold zlen at 1. rewrite Hl, Z.eqb_refl. cbn [bind]. rewrite IH. reflexivity.
+Qed.
+
+Lemma first_var_map_BVar m l ls : all_len m (l :: ls) -> first_var (map BVar (l :: ls)) = Some (Z.of_nat m).
+Proof. intros H. apply Forall_cons_iff in H. destruct H as [Hl _]. cbn. unfold zlen. rewrite Hl. reflexivity. Qed.
+
+Lemma bc_S stop fin f depth ps :
+  bc stop fin (S f) depth ps =
+  (let ts := map fst ps in
+   do st <- stop depth ts;
+   if st then fin ps else
+   if existsb is_union ts then unspecified else
+   if existsb is_opt ts then
+     if existsb (fun p => is_opt (fst p) && is_none (snd p)) ps then Ok VNone
+     else bc stop fin f depth (map (fun p => (strip_opt1 (fst p), snd p)) ps)
+   else if existsb is_listty ts then
+     if existsb outer_is_string ts then unspecified else
+     do bs <- mapM classify ps;
+     let allreg := match first_var bs with None => true | Some _ => false end in
+     let target := match first_var bs with Some n => n | None => max_reg bs end in
+     do cols <- mapM (stretch allreg target) bs;
+     let ets := map elem_ty ts in
+     rmap VList (mapM (fun row => bc stop fin f (depth + 1) (zip ets row)) (rows_of cols))
+   else if existsb is_rec ts then unspecified
+   else Err EValue).
+Proof. reflexivity. Qed.
+
+(* zip of one aligned row of leaf lists: the list of the records of corresponding elements *)
+Lemma bc_zip_row fields ts f row m ls :
+  Forall leaf_list_ty ts -> ts <> [] -> length ts = length ls ->
+  row = map VList ls -> all_len m ls ->
+  match fields with None => True | Some ks => length ks = length ts end ->
+  bc (zip_stop None) (fun ps => mk_tuple fields (map snd ps)) (S (S f)) 1 (zip ts row) =
+  Ok (VList (map (mkrow fields) (transpose_n m ls))).
+Proof.
+  intros Hts Hne Hlen -> Hall Hk.
+  destruct (leaf_list_tys_props ts Hts) as (I1 & I2 & I3 & I4 & I5 & I6 & I7 & I8).
+  assert (Hlen' : length ts = length (map VList ls)) by (rewrite map_length; exact Hlen).
+  destruct (zip_fst_snd ts (map VList ls) Hlen') as [E1 E2].
+  rewrite bc_S. cbv zeta. rewrite E1. unfold zip_stop at 1. rewrite I1, I4. cbn [bind].
+  destruct ts as [|t0 ts0] eqn:Ets; [contradiction|]. rewrite <- Ets in *.
+  rewrite I2.
+  assert (Hl : existsb is_listty ts = true).
+  { pose proof I8 as J. rewrite Ets in J |- *. apply Forall_cons_iff in J. destruct J as [[s ->] _]. reflexivity. }
+  rewrite Hl.
+  rewrite I3. rewrite (classify_var ts ls I8 Hlen). cbn [bind].
+  destruct ls as [|l0 ls0] eqn:Els; [rewrite Ets in Hlen; discriminate|]. rewrite <- Els in *.
+  assert (Hfv : first_var (map BVar ls) = Some (Z.of_nat m)) by (rewrite Els; apply first_var_map_BVar; rewrite <- Els; exact Hall).
+  rewrite Hfv. rewrite (stretch_var m ls _ Hall). cbn [bind].
+  unfold rows_of. rewrite Els. rewrite <- Els.
+  assert (Hl0 : length l0 = m) by (rewrite Els in Hall; apply Forall_cons_iff in Hall; apply Hall).
+  rewrite Hl0.
+  rewrite (mapM_Ok_map _ (mkrow fields)); [reflexivity|].
+  intros irow Hin.
+  assert (Hilen : length (map elem_ty ts) = length irow).
+  { pose proof (transpose_n_rows_len m ls) as Hr. rewrite Forall_forall in Hr.
+    rewrite (Hr irow Hin). rewrite map_length. exact Hlen. }
+  destruct (zip_fst_snd (map elem_ty ts) irow Hilen) as [F1 F2].
+  rewrite bc_S. cbv zeta. rewrite F1. unfold zip_stop. rewrite I6, I7. cbn [bind]. rewrite F2.
+  unfold mk_tuple, mkrow. destruct fields as [ks|]; [|reflexivity].
+  replace (length ks) with (length irow) by (rewrite Hk; rewrite map_length in Hilen; symmetry; exact Hilen).
+  rewrite Nat.eqb_refl. reflexivity.
+Qed.
+
+Lemma bct_S stop f depth ts :
+  bct stop (S f) depth ts =
+  (do st <- stop depth ts;
+   if st then Ok tt else
+   if existsb is_union ts then unspecified else
+   if existsb is_opt ts then bct stop f depth (map strip_opt1 ts)
+   else if existsb is_listty ts then
+     if existsb outer_is_string ts then unspecified else
+     do _ <- reg_sizes_ok (filter is_listty ts);
+     bct stop f (depth + 1) (map elem_ty ts)
+   else if existsb is_rec ts then unspecified
+   else Err EValue).
+Proof. reflexivity. Qed.
+
+Lemma bc_fuel_leaf_lists ts : ts <> [] -> Forall leaf_list_ty ts -> exists f, bc_fuel ts = S (S f).
+Proof.
+  intros Hne H. destruct H as [|t ts [dt ->] _]; [contradiction|]. unfold bc_fuel. cbn. eexists. reflexivity.
+Qed.
+
+(* field i of a zipped aligned row is the i-th list of the row *)
+Lemma pick_zipped_row fields f m ls i :
+  all_len m ls -> 0 <= i < zlen ls ->
+  match fields with None => True | Some ks => length ks = length ls end ->
+  pick_field i (S (S f)) (VList (map (mkrow fields) (transpose_n m ls))) = get (map VList ls) i.
+Proof.
+  intros Hall Hi Hk. cbn [pick_field]. rewrite mapM_map.
+  rewrite (mapM_ext_in _ (fun irow => get irow i)).
+  2:{ intros irow Hin. apply pick_field_mkrow. destruct fields as [ks|]; [|exact I].
+      pose proof (transpose_n_rows_len m ls) as Hr. rewrite Forall_forall in Hr. rewrite (Hr irow Hin). exact Hk. }
+  destruct (get_ok ls i Hi) as [l Hl].
+  rewrite (transpose_n_col m ls i l Hl Hall). rewrite get_map, Hl. reflexivity.
+Qed.
+
+(* C10: unzip(zip(fields)) = fields for fields that are lists of leaves with equal list lengths (zip goes one
+   level down and builds a record per element) *)
+Theorem unzip_zip_lists_lemma n (fields : option (list name)) (arrs : list arr) :
+  arrs <> [] ->
+  all_len n (map snd arrs) ->
+  Forall leaf_list_ty (map fst arrs) ->
+  fields_ok (zlen arrs) fields = true ->
+  Forall aligned_row (transpose_n n (map snd arrs)) ->
+  spec_unzip_zip None fields arrs = Ok (VTup (map (fun a : arr => VList (snd a)) arrs)).
+Proof.
+  intros Hne Hall Hty Hf Hal.
+  assert (Hk : match fields with None => True | Some ks => length ks = length arrs end).
+  { destruct fields as [ks|]; [|exact I]. cbn in Hf. apply Z.eqb_eq in Hf. apply zlen_eq_length in Hf. exact Hf. }
+  assert (Hcols : map snd arrs <> []) by (destruct arrs; [contradiction | discriminate]).
+  assert (Htsne : map fst arrs <> []) by (destruct arrs; [contradiction | discriminate]).
+  destruct (bc_fuel_leaf_lists (map fst arrs) Htsne Hty) as [f Hfuel].
+  destruct (leaf_list_tys_props (map fst arrs) Hty) as (I1 & I2 & I3 & I4 & I5 & I6 & I7 & I8).
+  set (zrow := fun row : list value =>
+                 match row with _ => VList (map (mkrow fields)
+                   (transpose_n (match row with VList l :: _ => length l | _ => 0%nat end)
+                                (map (fun v => match v with VList l => l | _ => [] end) row))) end).
+  assert (Hzip : spec_zip None fields arrs = Ok (VList (map zrow (transpose_n n (map snd arrs))))).
+  { unfold spec_zip. cbn [bind]. rewrite Hf. cbn [negb].
+    assert (Hm : forall (X : res value), match arrs with [] => unspecified | _ :: _ => X end = X)
+      by (intros X; destruct arrs; [contradiction | reflexivity]).
+    rewrite Hm. clear Hm. rewrite Hfuel.
+    (* the type-level walk *)
+    rewrite bct_S. unfold zip_stop at 1. rewrite I1, I4.
+    replace (match map fst arrs with [] => true | _ :: _ => false end) with false by (destruct (map fst arrs); [contradiction | reflexivity]).
+    cbn [bind]. rewrite I2.
+    assert (Hl : existsb is_listty (map fst arrs) = true).
+    { pose proof I8 as J. destruct (map fst arrs); [contradiction|]. apply Forall_cons_iff in J. destruct J as [[s ->] _]. reflexivity. }
+    rewrite Hl, I3, I5, (reg_sizes_ok_var _ I8). cbn [bind].
+    rewrite bct_S. unfold zip_stop at 1. rewrite I6, I7. cbn [bind].
+    rewrite (top_rows_equal n _ Hcols Hall). cbn [bind].
+    rewrite (mapM_Ok_map _ zrow); [reflexivity|].
+    intros row Hin.
+    rewrite Forall_forall in Hal. destruct (Hal row Hin) as (m & ls & -> & Hlsall).
+    assert (Hlen : length (map fst arrs) = length ls).
+    { pose proof (transpose_n_rows_len n (map snd arrs)) as Hr. rewrite Forall_forall in Hr.
+      specialize (Hr _ Hin). rewrite !map_length in Hr. rewrite map_length. symmetry. exact Hr. }
+    rewrite (bc_zip_row fields (map fst arrs) f (map VList ls) m ls Hty Htsne Hlen eq_refl Hlsall).
+    2:{ destruct fields as [ks|]; [rewrite map_length; exact Hk | exact I]. }
+    subst zrow. cbv beta.
+    assert (E1 : map (fun v => match v with VList l => l | _ => [] end) (map VList ls) = ls)
+      by (rewrite map_map; apply map_id).
+    rewrite E1.
+    destruct ls as [|l0 ls0]; [destruct (map fst arrs); [contradiction | discriminate]|].
+    cbn [map]. apply Forall_cons_iff in Hlsall. destruct Hlsall as [Hl0 _]. rewrite Hl0. reflexivity. }
+  unfold spec_unzip_zip. rewrite Hzip. cbn [bind].
+  remember (match fields with Some ks => ks | None => map digit_name (iota (zlen arrs)) end) as ks eqn:Eks.
+  assert (Hks : zlen ks = zlen arrs).
+  { subst ks. destruct fields as [ks0|].
+    - unfold zlen. rewrite Hk. reflexivity.
+    - rewrite zlen_map, zlen_iota by apply zlen_nonneg. reflexivity. }
+  assert (Hm : forall X : res value, match ks with [] => unspecified | _ :: _ => X end = X).
+  { intros X. destruct ks; [exfalso|reflexivity]. destruct arrs; [contradiction|].
+    rewrite zlen_cons in Hks. cbn in Hks. pose proof (zlen_nonneg arrs). lia. }
+  rewrite Hm. clear Hm Eks.
+  set (L := map (fun a : arr => VList (snd a)) arrs).
+  assert (HL : zlen L = zlen ks) by (subst L; rewrite zlen_map; symmetry; exact Hks).
+  rewrite <- HL. rewrite mapM_iota_get; [reflexivity|].
+  intros i Hi. rewrite Hfuel. rewrite mapM_map.
+  rewrite (mapM_ext_in _ (fun row => get row i)).
+  2:{ intros row Hin. rewrite Forall_forall in Hal. destruct (Hal row Hin) as (m & ls & -> & Hlsall).
+      assert (Hlen : length ls = length arrs).
+      { pose proof (transpose_n_rows_len n (map snd arrs)) as Hr. rewrite Forall_forall in Hr.
+        specialize (Hr _ Hin). rewrite !map_length in Hr. exact Hr. }
+      subst zrow. cbv beta.
+      assert (E1 : map (fun v => match v with VList l => l | _ => [] end) (map VList ls) = ls)
+        by (rewrite map_map; apply map_id).
+      rewrite E1.
+      assert (Hm0 : match map VList ls with VList l :: _ => length l | _ => 0%nat end = m \/ ls = []).
+      { destruct ls as [|l0 ls0]; [right; reflexivity|]. left. cbn. apply Forall_cons_iff in Hlsall. apply Hlsall. }
+      destruct Hm0 as [-> | ->].
+      - apply pick_zipped_row; [exact Hlsall | | ].
+        + subst L. rewrite zlen_map in Hi. unfold zlen in *. rewrite Hlen. exact Hi.
+        + destruct fields as [ks0|]; [rewrite Hlen; exact Hk | exact I].
+      - exfalso. cbn in Hlen. destruct arrs; [contradiction | discriminate]. }
+  subst L. rewrite get_map. rewrite zlen_map in Hi.
+  unfold arr in *. destruct (get_ok arrs i Hi) as [a Ha]. rewrite Ha. cbn [rmap].
+  rewrite (transpose_n_col n (map snd arrs) i (snd a)); [reflexivity | | exact Hall].
+  rewrite get_map, Ha. reflexivity.
+Qed.
+
+(* ---------------------------------------------------------------- mask one list level down *)
+Lemma mask_v_list vw ta' (xs : list value) (ms : list bool) :
+  length xs = length ms ->
+  mask_v vw (TList None None (TNum DBool)) (VList (map VBool ms)) (TList None None ta') (VList xs) =
+  Ok (VList (map (fun p : value * bool => if Bool.eqb (snd p) vw then fst p else VNone) (zip xs ms))).
+Proof.
+  intros Hlen.
+  assert (Hz : zlen xs = zlen (map VBool ms)) by (unfold zlen; rewrite map_length, Hlen; reflexivity).
+  cbn [mask_v is_opt andb strip_opt1]. unfold classify. cbn [fst snd mapM elems bind first_var stretch].
+  rewrite Z.eqb_refl. cbn [bind]. rewrite Hz, Z.eqb_refl. cbn [bind].
+  assert (E : zip (map VBool ms) xs = map (fun p : value * bool => (VBool (snd p), fst p)) (zip xs ms)).
+  { clear. revert ms. induction xs as [|x xs IH]; intros [|b ms]; try reflexivity. cbn. rewrite IH. reflexivity. }
+  rewrite E, mapM_map.
+  rewrite (mapM_Ok_map _ (fun p : value * bool => if Bool.eqb (snd p) vw then fst p else VNone)); [reflexivity|].
+  intros [x b] _. reflexivity.
+Qed.
+
+(* C09: a mask with the structure of the array (lists of booleans, same lengths): None exactly where the mask
+   differs from valid_when, all other elements and all list lengths unchanged *)
+Theorem mask_exact_lists_lemma vw ta' (xss : list (list value)) (mss : list (list bool)) :
+  has_union ta' = false ->
+  Forall2 (fun xs ms => length xs = length ms) xss mss ->
+  spec_mask vw (TList None None ta') (map VList xss) (TList None None (TNum DBool))
+            (map (fun ms => VList (map VBool ms)) mss) =
+  Ok (VList (map (fun p : list value * list bool =>
+                    VList (map (fun q : value * bool => if Bool.eqb (snd q) vw then fst q else VNone) (zip (fst p) (snd p))))
+                 (zip xss mss))).
+Proof.
+  intros Hu Hlens.
+  assert (Hlen : length xss = length mss) by (clear -Hlens; induction Hlens; cbn; congruence).
+  unfold spec_mask. cbn [has_union orb]. rewrite Hu. cbn [orb mask_leaf_ok negb].
+  cbn [mask_tyck strip_opt1 reg_sizes_ok flat_map app length Nat.eqb negb bind].
+  rewrite (top_rows_equal (length xss)).
+  2: discriminate.
+  2:{ repeat constructor; rewrite !map_length; [reflexivity | symmetry; exact Hlen]. }
+  cbn [bind].
+  replace (length xss) with (length (map VList xss)) by apply map_length.
+  rewrite transpose2 by (rewrite !map_length; exact Hlen).
+  rewrite mapM_map.
+  assert (Hz : zip (map VList xss) (map (fun ms => VList (map VBool ms)) mss) =
+               map (fun p : list value * list bool => (VList (fst p), VList (map VBool (snd p)))) (zip xss mss)).
+  { clear. revert mss. induction xss as [|x xss IH]; intros [|m mss]; try reflexivity. cbn. rewrite IH. reflexivity. }
+  rewrite Hz, mapM_map.
+  rewrite (mapM_Ok_map _ (fun p : list value * list bool =>
+             VList (map (fun q : value * bool => if Bool.eqb (snd q) vw then fst q else VNone) (zip (fst p) (snd p))))).
+  - reflexivity.
+  - intros [xs ms] Hin. cbn [fst snd]. apply mask_v_list.
+    clear -Hlens Hin. induction Hlens as [|x m xss mss Hxm Hrest IH]; cbn in Hin; [contradiction|].
+    destruct Hin as [E|Hin]; [injection E as <- <-; exact Hxm | apply IH, Hin].
+Qed.
